@@ -13,9 +13,6 @@ JOBS += [
   Job("c11.node_free.pool", TU, "h_node_free_pool", cbmc=UNW, fuc=["myth_tls_tree_node_free"], timeout=300),
   Job("c11.fini", TU, "h_fini", replace=["myth_tls_call_destructors_rec/destructors_rec_contract", "myth_tls_tree_destroy_rec/destroy_rec_contract"],
       cbmc=UNW, fuc=["myth_tls_tree_fini", "myth_tls_call_destructors", "myth_tls_tree_destroy"], timeout=600, mem_gb=8),
-],
-      timeout=3000, mem_gb=20,
-      note="monolithic cross-check of the modular proof: all 2^85 tree shapes over canonical nodes in one run"),
 ]
 META = {
  "level": "proof",
